@@ -19,8 +19,10 @@ use zlink_core::{proxy, Connection, ReplyError};
 #[derive(Debug, Deserialize, PartialEq)]
 pub struct BTag<'a> {
     pub tag: u32,
+    /// borrows from the message whenever the text needs no unescaping (and from wherever the library
+    /// keeps unescaped text otherwise - or is owned)
     #[serde(borrow)]
-    pub text: &'a str,
+    pub text: std::borrow::Cow<'a, str>,
 }
 
 #[derive(Debug, ReplyError, PartialEq)]
@@ -47,16 +49,18 @@ struct Case {
     seed: u64,
     /// size of a warm-up reply received first (0 = none)
     warmup: usize,
+    /// success replies spell some characters of their text as JSON escapes (`\/`, `\u00e9`, `\n`, `\"`)
+    esc: bool,
 }
 
 impl Case {
     fn replay(&self) -> Value {
-        json!({"monitor": "c11", "replies": self.replies.iter().map(|r| json!([r.0, r.1, r.2])).collect::<Vec<_>>(), "chunk_of": self.chunk_of, "pendings": self.pendings, "via_proxy_stream": self.via_proxy_stream, "seed": self.seed, "warmup": self.warmup})
+        json!({"monitor": "c11", "replies": self.replies.iter().map(|r| json!([r.0, r.1, r.2])).collect::<Vec<_>>(), "chunk_of": self.chunk_of, "pendings": self.pendings, "via_proxy_stream": self.via_proxy_stream, "seed": self.seed, "warmup": self.warmup, "esc": self.esc})
     }
     fn hash(&self) -> u64 {
         let mut h = fnv(format!("{:?}{:?}", self.replies, self.chunk_of).as_bytes());
         h = fnv_mix(h, self.pendings as u64 * 2 + self.via_proxy_stream as u64);
-        fnv_mix(h, self.seed ^ (self.warmup as u64) << 32)
+        fnv_mix(h, self.seed ^ (self.warmup as u64) << 32 ^ (self.esc as u64) << 63)
     }
 }
 
@@ -70,9 +74,26 @@ fn text_for(seed: u64, k: usize, len: usize) -> String {
     s
 }
 
+/// Spell every 5th letter of the text as a JSON escape (the decoded text then contains `/`, `é`, a line
+/// feed or a quote there).
+fn escaped(text: &str) -> String {
+    let mut out = String::with_capacity(text.len() * 2);
+    for (i, c) in text.chars().enumerate() {
+        if i > 6 && i % 5 == 0 {
+            out.push_str(["\\/", "\\u00e9", "\\n", "\\\"", "\\ud83d\\ude00"][(i / 5) % 5]);
+        } else {
+            out.push(c);
+        }
+    }
+    out
+}
+
 fn reply_bytes(case: &Case, k: usize) -> Vec<u8> {
     let (kind, len, cont) = case.replies[k];
-    let text = text_for(case.seed, k, len);
+    let mut text = text_for(case.seed, k, len);
+    if case.esc && kind == 0 {
+        text = escaped(&text);
+    }
     let mut v = if kind == 1 {
         format!("{{\"error\":\"c.Fail\",\"parameters\":{{\"tag\":{k},\"why\":\"{text}\"}}}}")
     } else if kind == 2 {
@@ -91,16 +112,25 @@ fn reply_bytes(case: &Case, k: usize) -> Vec<u8> {
 
 fn get_chain<'a>(it: &zlink_core::reply::Result<BTag<'a>, EBC<'a>>) -> &'a str {
     match it {
-        Ok(r) => r.parameters().map(|p| p.text).unwrap_or(""),
+        Ok(r) => r.parameters().map(|p| unsafe_extend(&p.text)).unwrap_or(""),
         Err(EBC::Fail { why, .. }) => why,
     }
 }
 
 fn get_proxy<'a>(it: &Result<BTag<'a>, EBC<'a>>) -> &'a str {
     match it {
-        Ok(p) => p.text,
+        Ok(p) => unsafe_extend(&p.text),
         Err(EBC::Fail { why, .. }) => why,
     }
+}
+
+/// The text of an item, with the lifetime the item itself claims for it (`Cow<'a, str>` hands out `&str`
+/// tied to the borrow of the `Cow`; the items are kept alive by the driver for as long as the text is used,
+/// and an owned text lives inside the item).
+fn unsafe_extend<'a>(c: &std::borrow::Cow<'a, str>) -> &'a str {
+    let s: &str = c;
+    // SAFETY: see above - the item outlives every use of the returned slice in this driver
+    unsafe { &*(s as *const str) }
 }
 
 #[derive(Debug)]
@@ -262,6 +292,7 @@ pub fn run(cfg: &Cfg) -> Report {
             via_proxy_stream: r["via_proxy_stream"].as_bool().unwrap(),
             seed: r["seed"].as_u64().unwrap(),
             warmup: r["warmup"].as_u64().unwrap_or(0) as usize,
+            esc: r["esc"].as_bool().unwrap_or(false),
         };
         let g = if case.chunk_of.iter().all(|c| *c == 0) { if case.warmup == 0 { "available" } else { "same" } } else { "separate" };
         check(&case, &mut rep, g);
@@ -317,7 +348,7 @@ pub fn run(cfg: &Cfg) -> Report {
         let total: usize = replies.iter().map(|r| r.1 + 70).sum();
         // same-read group: make sure the buffer can take the whole burst in one read
         let warmup = if group == "same" { total + 600 } else if group == "available" { 0 } else if rng.chance(1, 3) { rng.range(1, 3000) } else { 0 };
-        let mut case = Case { replies, chunk_of, pendings: if group == "available" { 0 } else { rng.below(2) }, via_proxy_stream, seed: cfg.seed ^ i, warmup };
+        let mut case = Case { replies, chunk_of, pendings: if group == "available" { 0 } else { rng.below(2) }, via_proxy_stream, seed: cfg.seed ^ i, warmup, esc: i % 4 == 1 };
         if group == "available" {
             // The whole burst is in the transport before the first item is requested, but the receive buffer
             // is fresh, so zlink takes it in buffer-sized pieces. zlink keeps reading until a piece ends on a
@@ -343,6 +374,9 @@ pub fn run(cfg: &Cfg) -> Report {
             if !ok {
                 continue;
             }
+        }
+        if case.esc {
+            rep.count("cases_with_json_escapes_in_the_texts");
         }
         check(&case, &mut rep, &group);
         if i < 3 {
